@@ -341,7 +341,7 @@ fn attr_docs(thorough: bool, sink: &mut dyn FnMut(String, Doc)) {
     }
     // <data> forms at several levels, binding, name, datamodel, global script
     for late in [false, true] {
-        for dm in ["rfsm-expression", "null", "ecmascript"] {
+        for dm in ["rfsm-expression", "null"] {
             for script in [None, Some(Expr::Raw("x ?= 1".into()))] {
                 let mut d = content_host(vec![m("q")], 2);
                 d.late_binding = late;
